@@ -57,6 +57,16 @@ theorem or_inference_sound (F : List (List String)) (N R : List Child)
     (IsOr F N R → NewOr N R s ∨ s = []) ∧ (¬ IsOr F N R → NewAnd N R s) :=
   infer_or_sound F N R hdisj s hs hraw
 
+/-- **C06, the OR inference on plain events, end to end in the judge's semantics**: the executable model of
+`infer_or_gate_from_node` (tied to the real function on generated trees and on the raw trees of the domain) applied to
+the miner's node `+(n…, X(tau, r)…)` over distinct plain events returns a gate tree that `admits` every non-empty
+observed set consisting of all of `N` and some of `R` — in both branches of the decision. -/
+theorem or_inference_leaves_sound (F : List (List String)) (N R : List String) (hR : R ≠ [])
+    (hdis : ∀ x ∈ N, x ∉ R) (s : List String) (hs : s ∈ F) (T : List String) (hT : T.Sublist R)
+    (hsame : SameSet s (N ++ T)) (hne : s ≠ []) :
+    ∃ g, (inferOrNode F (rawLeaves N R)).toGate = some g ∧ admits g s = true :=
+  infer_or_leaves_sound F N R hR hdis s hs T hT hsame hne
+
 /-- the executable test of the model (`checkIsOr`, compared with the real function on generated trees) is that
 decision on the labels of the subtrees -/
 theorem or_test_spec (sets : List (List String)) (nonTau removed : List PTree) :
